@@ -8,20 +8,20 @@ import RdsProofs.Inv
 -/
 namespace RDS
 
-theorem Text.cleared_eq_replicate (t : Text) : t.cleared = List.replicate t.length blank := by
+theorem c13_Text_cleared_eq_replicate (t : Text) : t.cleared = List.replicate t.length blank := by
   unfold Text.cleared
   induction t with
   | nil => rfl
   | cons a l ih => rw [List.map_cons, ih, List.length_cons, List.replicate_succ]
 
 /-! facts about `initState`, kept away from `simp` -/
-theorem initState_ps : initState.ps = List.replicate capPs blank := rfl
-theorem initState_rt0 : initState.rt0 = List.replicate capRt blank := rfl
-theorem initState_rt1 : initState.rt1 = List.replicate capRt blank := rfl
-theorem initState_ptyn : initState.ptyn = List.replicate capPtyn blank := rfl
+theorem c13_initState_ps : initState.ps = List.replicate capPs blank := rfl
+theorem c13_initState_rt0 : initState.rt0 = List.replicate capRt blank := rfl
+theorem c13_initState_rt1 : initState.rt1 = List.replicate capRt blank := rfl
+theorem c13_initState_ptyn : initState.ptyn = List.replicate capPtyn blank := rfl
 
 /-- what the getters show on a freshly initialised parser with other settings/observers -/
-theorem ofState_initWith (set : Settings) (cbs : List Bool) (ud : Nat) :
+theorem c13_ofState_initWith (set : Settings) (cbs : List Bool) (ud : Nat) :
     Obs.ofState { initState with set := set, cbs := cbs, ud := ud } = Obs.fresh set := by
   have e8 : TextObs.ofText (List.replicate capPs blank) 0 = blankText capPs := by decide
   have e64 : TextObs.ofText (List.replicate capRt blank) 0 = blankText capRt := by decide
@@ -36,13 +36,13 @@ theorem ofState_initWith (set : Settings) (cbs : List Bool) (ud : Nat) :
 theorem C13_clear_state (tb : Tabs) (s : State) (hw : WF tb s) :
     clearState s = { initState with set := s.set, cbs := s.cbs, ud := s.ud } := by
   have h1 : s.ps.cleared = initState.ps := by
-    rw [Text.cleared_eq_replicate, hw.psLen]; rfl
+    rw [c13_Text_cleared_eq_replicate, hw.psLen]; rfl
   have h2 : s.rt0.cleared = initState.rt0 := by
-    rw [Text.cleared_eq_replicate, hw.rt0Len]; rfl
+    rw [c13_Text_cleared_eq_replicate, hw.rt0Len]; rfl
   have h3 : s.rt1.cleared = initState.rt1 := by
-    rw [Text.cleared_eq_replicate, hw.rt1Len]; rfl
+    rw [c13_Text_cleared_eq_replicate, hw.rt1Len]; rfl
   have h4 : s.ptyn.cleared = initState.ptyn := by
-    rw [Text.cleared_eq_replicate, hw.ptynLen]; rfl
+    rw [c13_Text_cleared_eq_replicate, hw.ptynLen]; rfl
   show State.mk Scalars.cleared Scalars.cleared s.set s.ps.cleared s.rt0.cleared s.rt1.cleared
       s.ptyn.cleared s.termPs s.termRt0 s.termRt1 s.termPtyn (-1) s.cbs s.ud = _
   rw [h1, h2, h3, h4, hw.termPs, hw.termRt0, hw.termRt1, hw.termPtyn]
@@ -52,11 +52,11 @@ theorem chkC13_ok (tb : Tabs) (s : State) (op : Op) (hw : WF tb s) : chkC13 (rec
   cases op with
   | clear =>
     show (Obs.ofState (clearState s) == Obs.fresh s.set && ([] : List EvObs).isEmpty) = true
-    rw [C13_clear_state tb s hw, ofState_initWith]
+    rw [C13_clear_state tb s hw, c13_ofState_initWith]
     simp
   | init =>
     show (Obs.ofState initState == Obs.fresh Settings.init && ([] : List EvObs).isEmpty) = true
-    have : Obs.ofState initState = Obs.fresh Settings.init := ofState_initWith Settings.init _ 0
+    have : Obs.ofState initState = Obs.fresh Settings.init := c13_ofState_initWith Settings.init _ 0
     rw [this]
     simp
   | parse g => rfl
